@@ -96,6 +96,10 @@ func checkC04(r *Run) {
 		c04PairInterleave(r)
 		return
 	}
+	if onlyPart == "e3" {
+		c04E3(r)
+		return
+	}
 	r.Assume = []string{"every Step runs under recover; a hang watchdog is not needed for the explorers (each call is bounded by the deadline check between jobs; loops are over a finite buffer)",
 		"hostile alphabets = structural bytes of each parser + NUL 0x7f 0x80 0xff; full 256-value alphabet to depth 2-3",
 		"isolation: see coverage.isolation"}
@@ -103,6 +107,7 @@ func checkC04(r *Run) {
 	c04NonParsing(r)
 	c04Isolation(r)
 	c04PairInterleave(r)
+	c04E3(r)
 	c04Reuse(r)
 	or := Oracles{Sanity: true}
 	d3 := r.pick(2, 3)
